@@ -60,6 +60,11 @@ def get_discipline(name):
         return Discipline("DUMP", Exception, None, note="sub-dumpers are deterministic functions that may raise any Exception")
     if name == "ANY":
         return Discipline("ANY", Exception, None, note="user callable: deterministic, may raise any Exception")
+    if name == "FACTORY":
+        return Discipline("FACTORY", None, None,
+                          note="container factories (the origin class or its ABC_TO_IMPL entry) consume their argument to "
+                               "completion, propagate its exceptions and otherwise return a new container holding exactly "
+                               "the produced elements (hashability of elements placed in sets is assumed)")
     if name == "TOTAL":
         return Discipline("TOTAL", None, None, note="callable assumed total (never raises) on the values it is given")
     raise KeyError(name)
@@ -84,6 +89,9 @@ def call_symbolic(interp: Interp, st: St, f: V, args, kwargs):
     if disc is None:
         raise Unsupported(f"call of symbolic callable {f!r} without a declared discipline")
     interp.ctx.assume_note(disc.note)
+    if disc.name == "FACTORY":
+        yield from call_factory(interp, st, ft, args, kwargs)
+        return
     at = arg_term(interp, st, args, kwargs)
     st.calls.append((ft, at))
     if disc.exc_base is None:
@@ -94,9 +102,36 @@ def call_symbolic(interp: Interp, st: St, f: V, args, kwargs):
         if okb:
             yield s, ("ok", V("sym", t=T.F_res(ft, at)))
         else:
-            e = T.F_err(ft, at)
-            s.assume(T.F_sub(T.F_cls(e), interp.reg.cls(disc.exc_base)))
+            # a *new* exception object per call (exceptions are mutated by append_trail, so identity matters);
+            # what is deterministic is its class and the input value it reports
+            e = interp.ctx.fresh_val("err")
+            s.assume(T.F_cls(e) == T.F_errcls(ft, at))
+            for anc in disc.exc_base.__mro__:       # upward closure of the subclass relation, instantiated locally
+                s.assume(T.F_sub(T.F_cls(e), interp.reg.cls(anc)))
+            s.assume(T.F_raised_by(e) == ft)
+            s.assume(T.F_raised_on(e) == at)
+            s.assume(T.attr_fn("input_value")(e) == T.F_errval(ft, at))
+            interp.ensure_trails(s)
+            # brand new to this activation: nothing has been appended to its trail here
+            s.assume(z3.Select(s.trail_len, e) == z3.Select(interp.trail0[0], e))
+            s.assume(z3.Select(s.trail_arr, e) == z3.Select(interp.trail0[1], e))
             yield s, (RAISE, V("sym", t=e, tag=("err_of", ft, at)))
+
+
+def call_factory(interp, st, ft, args, kwargs):
+    if len(args) != 1 or kwargs:
+        raise Unsupported("container factory with several arguments")
+    for s, r in consume(interp, st, args[0]):
+        if r[0] != "ok":
+            yield s, r
+            continue
+        sv = r[1]
+        seqt = interp.term(s, V("tuple", list(sv[1]))) if sv[0] == "items" else sv[1]
+        t = T.F_mk(ft, seqt)
+        s.assume(T.F_mkseq(t) == seqt)
+        v = V("sym", t=t)
+        v.tag = ("fresh_container",)
+        yield s, ("ok", v)
 
 
 # ---------------------------------------------------------------------------------------------- attributes
